@@ -36,7 +36,7 @@ ASSUMPTIONS = [
 ]
 PROBES = ["object stream with more than 127 members", "object stream with 100 members", "history read under settings.STRICT", "chain of 260 to 1000 updates", "chain of more than 1000 updates", "free entry for a never-defined number", "cross-reference stream update without entries", "form:table", "form:stream", "form:hybrid", "packed objects", "override of packed by direct", "override of direct by packed", "multi-range Index", "nested getobj for indirect Length", "eviction happened", "caching off", "startxref boundary placed", "crlf eol", "cr-only eol", "bytes after %%EOF", "repository sample", "zero-width type field", "hybrid with free entries"]
 TIERS = {
-    "quick": {"batches": 16, "runs": 1200, "budget_s": 45},
+    "quick": {"batches": 16, "runs": 1200, "budget_s": 90},
     "thorough": {"batches": 128, "runs": 2500, "budget_s": 900},
 }
 DETERMINISM_SLICE = 6
